@@ -784,7 +784,9 @@ SPEC = {
             'and hex strings, nested arrays / dictionaries with all six white-space bytes and comments, references inside containers, '
             'inline images in every supported colour space and key style with all five ID separators, EI and leading white space in the '
             'samples) decoded (operation count checked), re-encoded, decoded again; spellings of reals around the f32 limits for the '
-            'float assumptions; non-trivial = at least one operation; distinct = distinct case text',
+            'float assumptions; in all three kinds about 40 % of the inline images carry further dictionary entries whose KEYS need a '
+            '#xx escape as names (white space, #, delimiters, bytes outside 33..126; also next to the meaningful keys: "W ", "Length#", '
+            '"ID ", " EI") with values of every kind; non-trivial = at least one operation; distinct = distinct case text',
     'extra_trusted': ['C14: reals are compared as f32 bit patterns (exact decimal->f32 rounding in lib/vlib.py); '
                       'f32 Display/FromStr are Rust std (assumed: from_str(to_string x) = x)'],
 }
